@@ -567,3 +567,57 @@ print('not reproduced')
 '''
 
 PROBES = [("bind keeps every dependency of a function argument", BIND_KEYS_REPLAY)]
+
+
+NESTED_AND_TEMP_REPLAY = '''import sys, os, itertools
+sys.path.insert(0, os.environ.get('PYVC_REPO', '/repo'))
+import param
+bad = []
+class S(param.Parameterized):
+    x = param.Number(1)
+class T(param.Parameterized):
+    c = param.List([], allow_refs=True)                      # nested_refs off on the class
+    d = param.Dict({}, allow_refs=True, nested_refs=True)    # on at class level
+    p = param.Number(0, allow_refs=True)
+# nested_refs switched on for ONE instance
+s1, s2 = S(x=1), S(x=2)
+t = T()
+t.param.c.nested_refs = True
+t.c = [s1.param.x, 10, s2.param.x]
+t.d = {'k': s1.param.x}
+if t.c != [1, 10, 2]:
+    bad.append('instance-level nested_refs=True: the container holds %r right after the assignment' % (t.c,))
+s1.x = 5
+if t.c != [5, 10, 2] or t.d != {'k': 5}:
+    bad.append('instance-level nested_refs=True on c (class-level on d): after the source changed c == %r, d == %r' % (t.c, t.d))
+s2.x = 7
+if t.c != [5, 10, 7]:
+    bad.append('instance-level nested_refs=True: after the second source changed c == %r' % (t.c,))
+# an update context whose TEMPORARY value is itself a reference, or whose body re-links: the original link is back afterwards
+for how in ('temporary reference', 'relink in body', 'temporary plain', 'temporary reference by mapping'):
+    a, b = S(x=1), S(x=100)
+    t = T(p=a.param.x)
+    if how == 'temporary reference':
+        ctx = t.param.update(p=b.param.x)
+    elif how == 'temporary reference by mapping':
+        ctx = t.param.update({'p': b.param.x})
+    else:
+        ctx = t.param.update(p=50)
+    with ctx:
+        if how == 'relink in body':
+            t.p = b.param.x
+        inside = t.p
+    if t.p != 1:
+        bad.append('update context (%s): after the block p == %r, the original source holds 1' % (how, t.p))
+    a.x = 3
+    if t.p != 3:
+        bad.append('update context (%s): after the block p no longer follows its original source (p == %r, source == 3)' % (how, t.p))
+    b.x = 200
+    if t.p != 3:
+        bad.append('update context (%s): after the block the temporary source still drives p (p == %r)' % (how, t.p))
+if bad:
+    print('REPRODUCED: ' + bad[0]); sys.exit(1)
+print('NOT-REPRODUCED'); sys.exit(0)
+'''
+
+PROBES = PROBES + [("instance-level nested_refs and temporary references in update contexts", NESTED_AND_TEMP_REPLAY)]
